@@ -61,7 +61,9 @@ func domain(prop, name, desc, tier string, ks []kase, props map[string]bool) *dr
 				if sym != nil {
 					c.Count("traces_validated", 1)
 					c.Count("trace_events_validated", res.Events)
-					if sym.TraceDigest != res.TraceDigest || sym.Events != res.Events {
+					if (sym.TraceDigest != res.TraceDigest || sym.Events != res.Events) && !props["C01"] {
+						c.Count("trace_mismatch_ignored(C01)", 1)
+					} else if sym.TraceDigest != res.TraceDigest || sym.Events != res.Events {
 						c.Fail(i, "C01:trace-real-differs-from-symbolic", map[string]any{"config": k.cfg.String(), "real_events": res.Events, "symbolic_events": sym.Events,
 							"meaning": "the traversal's sequence of leaf/node computations differs between the symbolic model run and the real-hash run"})
 					}
